@@ -52,6 +52,11 @@ def run(ctx, rep):
     # way into the hashes): a field that only sometimes reaches the seed is not tamper-evident
     import props.c13 as c13
     c13.unconditional(db, rep, db.fn(GET_HASH, 'C02'), rule='C02.digest')
+    # every byte of both children enters the masked Merkle node hash (a node value is tamper-evident only if all of it
+    # is hashed); same reading as C04.hash/preimage-order
+    import props.c04 as c04
+    okp_, evs_ = c04.node_preimage(db)
+    rep.ob('C02.hash', 'node-preimage', okp_, f'masked node hash preimage: {evs_} (expected all bytes of x, then of y)', db.fn(HASH_FU, 'C02').loc(), cfgname)
     for lname, lself in sorted(lay.items()):
         sm = fieldflow.SinkMap(db, VERIFY, {'Layout': lself})
         for path, ty, vec in static_fields:
